@@ -138,6 +138,9 @@ def gen_scenario(rng, cp=None):
         turns = [{"agent": "A", "text": q, "turn": i + 1, "now_ms": 1_700_000_000_000 + 1000 * i} for i, q in enumerate(order)]
         cfg["t1"]["cache"] = {"enabled": True, "max_entries": cap_, "ttl_s": 0}
         cfg["t4"]["enabled"] = False  # the graphs stay as they are: their cache entries stay valid
+        # sequential propagation: with the parallel fan-out the insertion order into the bounded cache follows thread timing
+        # (the open known finding of this property) and would show under any variant
+        cfg.setdefault("perf", {})["parallel"] = {"enabled": False}
         boot = False
     # some scenarios boot from an (empty) snapshot directory: the first turn runs the real boot loader
     sc = {"world": world, "cfg": cfg, "turns": turns, "boot_from_snapshot": boot}
